@@ -274,7 +274,11 @@ impl<'tcx> Cx<'tcx> {
                         }
                     }
                     if let Const::Unevaluated(u, _) = c.const_ {
-                        let _ = write!(s, ",\"def\":{}", js(&tcx.def_path_str(u.def)));
+                        if u.promoted.is_none() {
+                            let _ = write!(s, ",\"def\":{}", js(&tcx.def_path_str(u.def)));
+                        } else {
+                            let _ = write!(s, ",\"promoted_in\":{}", js(&tcx.def_path_str(u.def)));
+                        }
                     }
                     if let ty::Closure(did, _) | ty::Coroutine(did, _) | ty::CoroutineClosure(did, _) = t.kind() {
                         let _ = write!(s, ",\"closure\":{}", js(&tcx.def_path_str(*did)));
